@@ -722,6 +722,33 @@ func monC06(x *Ctx) {
 					map[string]interface{}{"diags": errs})
 			}
 		}
+		// --- the placeholder attribute of a message without fields is written too -----------
+		for _, k := range keys {
+			l := levels[k]
+			if !l.ms.Empty {
+				continue
+			}
+			x.Eval(1)
+			x.Count("to-placeholder-type-faults", 1)
+			fot := pruneType(ot, l.chain, "active", nil)
+			obj := types.Object{AttrTypes: fot.AttrTypes}
+			out := x.CopyTo(src, &obj)
+			id := fmt.Sprintf("%s/type-delete@%s.active", in, l.ms.Path)
+			if out.Panic != nil {
+				x.Violate(fmt.Sprintf("to/panic/type-delete/placeholder/%s/%s", panicClass(out.Panic), x.nilEmbedClass(src)), id, "CopyTo panicked on a target without the placeholder's attribute type", map[string]interface{}{"panic": panicDetail(out)})
+				continue
+			}
+			errs := errorDiags(out.Diags)
+			named := 0
+			for _, e := range errs {
+				if strings.Contains(e, l.ms.Path+".active") && strings.Contains(e, "is missing") {
+					named++
+				}
+			}
+			if named < 1 || len(errs) != named {
+				x.Violate("to/diag-count/placeholder", id, fmt.Sprintf("%d error diagnostics (%d naming %s.active), want one per visit", len(errs), named, l.ms.Path), map[string]interface{}{"diags": errs})
+			}
+		}
 		for _, k := range keys {
 			l := levels[k]
 			for _, a := range l.ms.Live() {
